@@ -597,8 +597,153 @@ func (p *Prog) GuardsOf(b *ssa.BasicBlock) []Atom {
 // normalised so that negative polarity flips the operator: !(x == y) -> "x != y".
 func (p *Prog) GuardStrings(in ssa.Instruction) []string {
 	var out []string
+	seen := map[string]bool{}
+	add := func(s string) {
+		if !seen[s] {
+			seen[s] = true
+			out = append(out, s)
+		}
+	}
 	for _, a := range p.GuardsOf(in.Block()) {
-		out = append(out, NormAtom(a.Cond, a.Pol))
+		add(NormAtom(a.Cond, a.Pol))
+		for _, extra := range p.foundIndexFacts(a) {
+			add(extra)
+		}
+		if extra := p.predicateHelperFact(a); extra != "" {
+			add(extra)
+		}
+	}
+	return out
+}
+
+// predicateHelperFact: a guard that is a call to a side-effect-free private predicate
+// (`func (l *listener) isClosed() bool { l.Lock(); defer l.Unlock(); return l.closed }`)
+// also stands for the expression the predicate returns, in the caller's terms.
+func (p *Prog) predicateHelperFact(a Atom) string {
+	call, ok := a.Cond.(*ssa.Call)
+	if !ok {
+		return ""
+	}
+	sc := call.Call.StaticCallee()
+	if sc == nil || sc.Blocks == nil || !p.moduleFunc(sc) || sc.Pkg != call.Parent().Pkg {
+		return ""
+	}
+	if sc.Signature.Results().Len() != 1 {
+		return ""
+	}
+	var ret *ssa.Return
+	pure := true
+	n := 0
+	EachInstr(sc, func(in ssa.Instruction) {
+		n++
+		switch x := in.(type) {
+		case *ssa.Return:
+			if sc.Recover != nil && x.Block() == sc.Recover {
+				return // the synthetic return of the recover block
+			}
+			if ret != nil {
+				pure = false
+			}
+			ret = x
+		case *ssa.Store:
+			if _, local := x.Addr.(*ssa.Alloc); !local {
+				pure = false
+			}
+		case *ssa.Send, *ssa.Go, *ssa.MapUpdate, *ssa.Select:
+			pure = false
+		case ssa.CallInstruction:
+			if classifyLockCall(x.Common()) == nil {
+				if _, isDefer := in.(*ssa.Defer); !isDefer {
+					if b, isB := x.Common().Value.(*ssa.Builtin); !isB || (b.Name() != "len" && b.Name() != "cap") {
+						pure = false
+					}
+				}
+			}
+		}
+	})
+	if !pure || ret == nil || n > 25 || len(ret.Results) != 1 {
+		return ""
+	}
+	v := resolveSpill(ret.Results[0], ret)
+	saved := descSubst
+	ns := map[*ssa.Parameter]string{}
+	for k, val := range saved {
+		ns[k] = val
+	}
+	for i, par := range sc.Params {
+		if i < len(call.Call.Args) {
+			ns[par] = Desc(call.Call.Args[i])
+		}
+	}
+	descSubst = ns
+	s := NormAtom(v, a.Pol)
+	descSubst = saved
+	return s
+}
+
+// foundIndexFacts: the search-then-act idiom
+//     idx := -1; for i, x := range L { if P(x) { idx = i; break } }; if idx < 0 { return … }; act(L[idx])
+// A guard "idx >= 0" (in any spelling) on a phi whose only other source is the constant -1
+// implies everything that guarded the assignment idx = i, read with idx in place of i.  The
+// implied atoms are added to the guards so that a rule written against
+//     for i, x := range L { if P(x) { act(L[i]) … } }
+// also recognises the two-phase form.
+func (p *Prog) foundIndexFacts(a Atom) []string {
+	bo, ok := a.Cond.(*ssa.BinOp)
+	if !ok {
+		return nil
+	}
+	ph, ok := bo.X.(*ssa.Phi)
+	k, okc := ConstInt(bo.Y)
+	if !ok || !okc {
+		return nil
+	}
+	// does the atom (with its polarity) say ph != -1 given ph ∈ {-1} ∪ indices?
+	op := bo.Op
+	if !a.Pol {
+		op = negOp[op]
+	}
+	found := (op == token.GEQ && k == 0) || (op == token.GTR && k == -1) || (op == token.NEQ && k == -1)
+	if !found {
+		return nil
+	}
+	// collect the non-sentinel sources of the phi (through other phis), each with its block
+	type src struct {
+		v    ssa.Value
+		from *ssa.BasicBlock
+	}
+	var srcs []src
+	okShape := true
+	seen := map[*ssa.Phi]bool{}
+	var walk func(x *ssa.Phi)
+	walk = func(x *ssa.Phi) {
+		if seen[x] {
+			return
+		}
+		seen[x] = true
+		for i, e := range x.Edges {
+			switch y := e.(type) {
+			case *ssa.Const:
+				if c, ok := ConstInt(y); !ok || c != -1 {
+					okShape = false
+				}
+			case *ssa.Phi:
+				walk(y)
+			default:
+				srcs = append(srcs, src{e, x.Block().Preds[i]})
+			}
+		}
+	}
+	walk(ph)
+	if !okShape || len(srcs) != 1 {
+		return nil
+	}
+	s := srcs[0]
+	from := Desc(s.v)
+	to := Desc(ph)
+	var out []string
+	for _, g := range p.GuardsOf(s.from) {
+		out = append(out, strings.ReplaceAll(NormAtom(g.Cond, g.Pol), from, to))
 	}
 	return out
 }
